@@ -35,7 +35,8 @@ static inline std::vector<u64> kernel(int mode, u64 n, u64 next)
             {
                 u64 q = F.mul(F.pow(wi, j), F.mul(7, F.pow(wx, k))); // w_N^-j * 7 * w_Next^k
                 u64 acc = 0, qi = 1;
-                for (u64 i = 0; i < n; i++) { acc = F.add(acc, qi); qi = F.mul(qi, q); }
+                if (n <= 64) { for (u64 i = 0; i < n; i++) { acc = F.add(acc, qi); qi = F.mul(qi, q); } }   // sum_i q^i term by term
+                else acc = (q == 1) ? n % GP : F.mul(F.sub(F.pow(q, n), 1), F.inv(F.sub(q, 1)));                // geometric series in closed form
                 K[j * nout + k] = F.mul(ni, acc);
             }
     }
